@@ -46,9 +46,13 @@ def operand(draw):
 def instruction_body(draw):
     """-> (mnemonic, ops_att, ops_norm)"""
     m = draw(st.sampled_from(MNEMONICS))
-    if m in ("call", "callq", "jmp", "jne", "je") and draw(st.integers(0, 3)) > 0:
-        t = draw(st.sampled_from(BRANCH_TARGETS))
-        return (m, [f"{t} <f+0x{t}>"], [t])
+    if m in ("call", "callq", "jmp", "jne", "je"):
+        # branches are direct (hex target + annotation) or, for call/jmp, indirect through a register (*%reg)
+        if m in ("jne", "je") or draw(st.integers(0, 3)) > 0:
+            t = draw(st.sampled_from(BRANCH_TARGETS))
+            return (m, [f"{t} <f+0x{t}>"], [t])
+        r = draw(st.sampled_from(["*%rax", "*%rdx", "*%r8"]))
+        return (m, [r], [r])
     if m in ("ret", "retq", "leave", "cltq", "nop", "bad") and draw(st.integers(0, 4)) > 0:
         return (m, [], [])
     n = draw(st.sampled_from([0, 1, 1, 2, 2, 2, 2, 3, 3, 4, 5]))
